@@ -269,7 +269,7 @@ type KnownFinding struct {
 	Property string `json:"property"`
 	Key      string `json:"key"`
 	KeyRegex string `json:"key_regex,omitempty"` // optional: the same construct after the enclosing method was renamed / split
-	Status   string `json:"status"` // "known" | "fixed"
+	Status   string `json:"status"`              // "known" | "fixed"
 	Commit   string `json:"commit,omitempty"`
 	What     string `json:"what"`
 }
